@@ -115,7 +115,7 @@ structure SimAt (F : GFile) (D : Names) (P : GExpr → Bool) (n : Nat) : Prop wh
         scopeErrsTCases D (keys ρi) cs = [] → scopeErrs D (keys ρi) b = [] →
         shapeOKTCases cs = true → shapeOK b = true →
         semOKTCases P cs live = true → semOK P b live = true →
-        Agree (uni (dceTCases cs live).liveIn (dceStmts b live).live) ρo ρi →
+        Agree (uni (uni live (dceTCases cs live).liveIn) (dceStmts b live).live) ρo ρi →
         (∀ x ∈ keys ρo, x ∈ keys ρi) →
         (∀ x ∈ uni (dceTCases cs live).needs (assignedStmts (dceStmts b live).out),
           x ∈ keys ρi → x ∈ keys ρo) →
@@ -125,7 +125,7 @@ structure SimAt (F : GFile) (D : Names) (P : GExpr → Bool) (n : Nat) : Prop wh
           ResRelN live r' r
   tsN : ∀ {cs live ρi ρo w v r},
         scopeErrsTCases D (keys ρi) cs = [] → shapeOKTCases cs = true → semOKTCases P cs live = true →
-        Agree (dceTCases cs live).liveIn ρo ρi →
+        Agree (uni live (dceTCases cs live).liveIn) ρo ρi →
         (∀ x ∈ keys ρo, x ∈ keys ρi) →
         (∀ x ∈ (dceTCases cs live).needs, x ∈ keys ρi → x ∈ keys ρo) →
         ¬ "_" ∈ keys ρi →
